@@ -133,3 +133,37 @@ def plan_c01(tier, seed):
     # rp: legacy alias `url` for `icon`
     write_gen("C01", hs)
     return metas
+
+
+# ---------------------------------------------------------------------------------- C18
+@register("C18", "c18", {
+    "functions": ["TryFrom<&str>/From<..> for &str of get_info::{Version, Extension, Transport} and AttestationStatementFormat",
+                  "serde Deserialize/Serialize of those enums (into/try_from = &str) through cbor_smol",
+                  "serde_repr Deserialize/Serialize of PinV1Subcommand, credential_management::Subcommand, CredentialProtectionPolicy",
+                  "TryFrom<u8> for CredentialProtectionPolicy, ctap1::ControlByte", "client_pin::Permissions::from_bits", "ctap2::Error discriminants"],
+    "bounds": "string enums: ALL well-formed UTF-8 strings of <= 19 bytes (symbolic bytes and length); CBOR text items with every "
+              "length that has a spelling (3,4,6,8,11,12,17) and fully symbolic contents incl. ill-formed UTF-8; numeric enums: a "
+              "fully symbolic CBOR item of <= 9 bytes (all head forms: all values < 2^64, all non-minimal forms, all majors); all 256 "
+              "bytes for the TryFrom<u8> / bit tables; every status constant",
+    "out": "strings longer than 19 bytes (longest spelling is 17); CBOR text items of lengths without any spelling",
+})
+def plan_c18(tier, seed):
+    hs = [
+        S("c18_version_all_strings", "Version::try_from on every UTF-8 string <= 19 bytes", sym=20),
+        S("c18_extension_all_strings", "Extension::try_from on every UTF-8 string <= 19 bytes", sym=20),
+        S("c18_transport_all_strings", "Transport::try_from on every UTF-8 string <= 19 bytes", sym=20),
+        S("c18_attfmt_all_strings", "AttestationStatementFormat::try_from on every UTF-8 string <= 19 bytes", sym=20),
+        S("c18_string_enums_into", "every variant -> its spelling -> same variant"),
+        S("c18_spellings_distinct", "oracle tables pairwise distinct"),
+        S("c18_string_enums_serialize", "cbor_serialize of every string-enum variant"),
+        S("c18_pin_subcommand_cbor", "PinV1Subcommand from a fully symbolic CBOR item <= 9 bytes", sym=9),
+        S("c18_cm_subcommand_cbor", "credential_management::Subcommand from a fully symbolic CBOR item <= 9 bytes", sym=9),
+        S("c18_cred_protect_cbor", "CredentialProtectionPolicy from a fully symbolic CBOR item <= 9 bytes", sym=9),
+        S("c18_numeric_enums_serialize", "numeric enums serialise to their number"),
+        S("c18_byte_tables", "all 256 bytes through CredentialProtectionPolicy/ControlByte TryFrom<u8>, Permissions::from_bits", sym=1),
+        S("c18_status_codes", "every ctap2::Error discriminant equals the CTAP 2.1 status number"),
+    ]
+    for n in ("version_cbor_len8", "version_cbor_len12", "version_cbor_len6", "extension_cbor_len11", "extension_cbor_len12",
+              "extension_cbor_len17", "transport_cbor_len3", "attfmt_cbor_len4", "attfmt_cbor_len6"):
+        hs.append(S("c18_" + n, "cbor_deserialize of a text item with fully symbolic contents (valid or not) of that length", sym=int(n.split("len")[1])))
+    return hs
